@@ -157,7 +157,22 @@ func r08d(c *an.Ctx) {
 			return strings.HasSuffix(n, "callable.HooksMap).GetWeights")
 		})
 		ok := false
+		// filtering before sorting: the weight loop ranges directly over what GetWeights returned
 		if len(gw) == 1 {
+			all := gw[0].(*ssa.Call)
+			for _, st := range an.CallsSuffix(fn, "callable.Calls).StartAll") {
+				if h, _ := an.EnclosingLoop(st.Block()); h != nil {
+					for _, in := range h.Instrs {
+						if bo, isBo := in.(*ssa.BinOp); isBo && bo.Op == token.LSS {
+							if ln, isLen := bo.Y.(*ssa.Call); isLen && an.CalleeName(&ln.Call) == "builtin.len" && an.Strip(ln.Call.Args[0]) == ssa.Value(all) {
+								ok = true
+							}
+						}
+					}
+				}
+			}
+		}
+		if len(gw) == 1 && !ok {
 			all := gw[0].(*ssa.Call)
 			for _, ci := range an.CallsNamed(fn, "builtin.append") {
 				ap := ci.(*ssa.Call)
@@ -388,7 +403,7 @@ func r08f(c *an.Ctx) {
 // Otherwise calls parked under another weight of the same moment are forgotten: never awaited (a critical
 // failure is lost), never cancelled at teardown.
 func pendingResetRule(c *an.Ctx, rule string) {
-	c.Rule(rule, "handleHooks: an entry of callsPendingAwait is replaced by a fresh empty container only when that very entry is absent or empty", 2)
+	c.Rule(rule, "handleHooks: an entry of callsPendingAwait is replaced by a fresh empty container only when that very entry is absent or empty", 1)
 	fn := c.MustFn("core/environment", "Environment.handleHooks")
 	if fn == nil {
 		return
@@ -555,8 +570,8 @@ func returnsAscending(c *an.Ctx, fn *ssa.Function, depth int) bool {
 			return false
 		}
 		rv := an.Strip(an.RetVal(r, 0))
-		if an.SameVar(rv, sorted) || an.DerivesFrom(rv, an.Strip(sorted)) || sameSliceCell(rv, sorted) {
-			continue
+		if an.SameVar(rv, sorted) || an.DerivesFrom(rv, an.Strip(sorted)) || an.DerivesFrom(an.Strip(sorted), rv) || sameSliceCell(rv, sorted) {
+			continue // the sorted slice itself (or an alias of it: same backing array)
 		}
 		// index-by-index copy of the sorted slice made after the sort
 		fillOK := false
